@@ -516,8 +516,23 @@ def perm_families():
     `c:dLblPos` was added, `a:lnSpc` after `a:spcBef`, ...)"""
     from pptx.dml.color import RGBColor
     from pptx.enum.chart import XL_LABEL_POSITION, XL_TICK_LABEL_POSITION, XL_TICK_MARK
+    from pptx.enum.shapes import MSO_SHAPE
     from pptx.enum.text import MSO_ANCHOR, MSO_AUTO_SIZE, PP_ALIGN
     from pptx.util import Pt
+
+    def _inject_custgeom(pic):
+        from pptx.oxml import parse_xml
+        spPr = pic._element.spPr
+        for g in spPr.xpath("./a:prstGeom | ./a:custGeom"):
+            anchor = g.getnext(); spPr.remove(g)
+        cg = parse_xml('<a:custGeom xmlns:a="http://schemas.openxmlformats.org/drawingml/2006/main"><a:avLst/><a:gdLst/><a:ahLst/><a:cxnLst/>'
+                       '<a:rect l="0" t="0" r="r" b="b"/><a:pathLst><a:path w="10" h="10"><a:moveTo><a:pt x="0" y="0"/></a:moveTo>'
+                       '<a:lnTo><a:pt x="10" y="10"/></a:lnTo><a:close/></a:path></a:pathLst></a:custGeom>')
+        x = spPr.xpath("./a:xfrm")
+        if x:
+            x[0].addnext(cg)
+        else:
+            spPr.insert(0, cg)
 
     def chart(prs, i=0):
         return [sh for sh in prs.slides[2].shapes if getattr(sh, "has_chart", False)][i].chart
@@ -578,6 +593,10 @@ def perm_families():
         ("table cell", lambda prs: ((lambda c: (c, c._tc))(table(prs).cell(1, 1))), [
             set_("margin_left", 0), set_("margin_top", None), set_("vertical_anchor", MSO_ANCHOR.BOTTOM), call("fill.solid"), call("fill.background"),
             set_("text", "x\ny"), set_("vertical_anchor", None)]),
+        ("picture geometry", lambda prs: ((lambda pc: (pc, pc._element.spPr))([sh for sh in prs.slides[1].shapes if sh.shape_type is not None and type(sh).__name__ == "Picture"][0])), [
+            ("inject a:custGeom (a picture cropped to a freeform, as PowerPoint writes it)", _inject_custgeom),
+            set_("auto_shape_type", MSO_SHAPE.OVAL), set_("auto_shape_type", MSO_SHAPE.RECTANGLE), set_("crop_left", 0.1), set_("crop_bottom", 0.0),
+            set_("line.width", 12700), call("line.fill.solid"), set_("rotation", 15.0)]),
         ("shape properties", lambda prs: ((lambda sh: (sh, sh._element.spPr))(shape(prs))), [
             call("fill.solid"), call("fill.gradient"), call("fill.background"), set_("line.width", 12700), set_("line.color.rgb", RGBColor(9, 9, 9)),
             call("line.fill.background"), set_("shadow.inherit", False), set_("shadow.inherit", True), set_("rotation", 30.0), set_("left", 5),
